@@ -100,3 +100,177 @@ PROPS["C08"] = {
     "level_note": "Trusted: Coq kernel; models of net.Buffers/conn.Write; harness. Partial: the whole-packets invariant over all session histories and the L3 write-token exclusion are not theorems yet (see coverage.partial).",
     "technique": "Coq proof by induction over write-outcome scripts + model/implementation correspondence on exhaustive splits",
 }
+
+
+def hist_prop(pid, theorems, partial, rule_extra, level_text, level_note, technique, assumptions=()):
+    PROPS[pid] = {
+        "modules": ["HistChecks"],
+        "runners": [{"name": pid, "synctest": True}],
+        "theorems": theorems,
+        "partial": partial,
+        "rule": "corpus first: scripted scenarios reproducing the witnesses of the repaired findings (F2 F3 F4 F8 F9 F11 F13 F16, big message at Close"
+                + (", 14 damage scenarios" if pid == "C16" else "") + "), then seeded random sequential histories (10-50 API calls each: ReadSlices, "
+                "Publish, persisted publishes on both levels, Subscribe/Unsubscribe/Ping in goroutines, quit, Close/Disconnect, ReadBackoff, process stop + "
+                "AdoptSession) against a scripted broker that acknowledges, withholds, duplicates and fragments, with injected dial/read/write/Persistence "
+                "faults; " + rule_extra + " Non-trivial = at least one failing or short environment answer, or a restart; distinct = distinct Coq term.",
+        "assumptions": ["sequential histories: one API call at a time; requests that wait for a response are parked goroutines observed at quiescence (synctest)",
+                        "the invariant theorems hold while the 64-bit storage counter has not overflowed (2^64 Saves)",
+                        "concurrent publishers are serialised per level by the sequence semaphore (L3 argument, DESIGN 6/C05), not modelled in L2"] + list(assumptions),
+        "trusted_extra": SEQ_TB,
+        "level_text": level_text, "level_note": level_note, "technique": technique,
+    }
+
+
+REFINE = ("Every API call of the session model is proved to be a finite sequence of abstract bookkeeping transitions (exec_refines, 1085 lines), "
+          "and the invariant OInv' (counters, windows, exactly one genuine record per unacknowledged sequence number at the right stage, nothing else in the "
+          "publish key spaces, storage numbers in acceptance order) is proved for every reachable state of client + Persistence under every environment script (reachable_inv). ")
+
+hist_prop("C01",
+    ["c01_every_call_refines", "c01_record_kept", "c01_record_leaves_only_by_puback", "c01_record_leaves_only_by_pubcomp", "c01_no_fault_stops_it"],
+    ["liveness (c01_settles: under a good suffix every exchange closes) is not a theorem; judged on histories only",
+     "'written in full' / 'resent on each connection' are judged on histories (c01_ok, c05_ok, hist_agree), the theorems cover the Persistence and counters"],
+    "C01 generator: window sizes 1-16, fault rate up to 12 %, Persistence faults up to 8 %, acknowledgements withheld up to 40 %.",
+    REFINE + "Corollaries: a record stays until the in-order final acknowledgement is applied and leaves only in that step together with the queue head. "
+    "The model is tied to the real client by recorded histories; c01_ok judges the implementation's trace alone (delete only after the ack was read, in order; exchange closes only with a delete).",
+    "Trusted: Coq kernel; the Session model (validated on every run); harness. Safety only; liveness is sampled.",
+    "Coq refinement + invariant proof over all histories/fault scripts + model/implementation correspondence")
+
+hist_prop("C03",
+    ["c03_no_publish_after_pubrec", "c03_pubrel_until_pubcomp", "c03_single_writer", "c03_id_not_reused"],
+    ["the broker-side statement (each message forwarded exactly once by a conforming broker) is judged on histories only; no Coq broker model yet"],
+    "C03 generator: exactly-once publishes only, acknowledgements lost at every stage of the four-packet handshake, restarts.",
+    REFINE + "Corollaries: once PUBREC n is recorded the record of n is the PUBREL and stays that record until PUBCOMP n; the only writer of the key is the PUBREC step; identifiers in the window are distinct. "
+    "c03_ok judges the trace: no PUBLISH n completes on any connection while the PUBREL is recorded; PUBREL saved only over the PUBLISH and after PUBREC was read.",
+    "Trusted: Coq kernel; the Session model; harness. Client-side theorem; exactly-once at the broker's subscribers follows for a conforming broker by the MQTT 3.1.1 handshake (not formalised).",
+    "Coq refinement + invariant proof + model/implementation correspondence")
+
+hist_prop("C05",
+    ["c05_resend_order", "c05_accept_position_alo", "c05_accept_position_eo"],
+    ["wire order and the DUP flag are judged on histories (c05_ok + hist_agree); the theorem covers identifier assignment and storage order",
+     "concurrent publishers: order = sequence-semaphore order (L3 not built)"],
+    "C05 generator: as C01.",
+    REFINE + "Corollaries: identifiers are assigned in acceptance order and the storage numbers of each group increase with acceptance order, which is what resend (sequence order) and restart (sort by storage number) rely on. "
+    "c05_ok judges the trace: first transmissions in acceptance order without DUP, retransmissions with DUP (free after a restart), per-connection order of PUBLISH and PUBREL.",
+    "Trusted: Coq kernel; the Session model; harness.",
+    "Coq refinement + invariant proof + model/implementation correspondence")
+
+hist_prop("C17",
+    ["c17_invariant", "c17_inflight_le_max", "c17_ids_distinct_alo", "c17_ids_distinct_eo", "c17_ids_range", "c17_ids_levels_disjoint", "c17_accept_id"],
+    ["subscribe/unsubscribe identifiers (13-bit counter, skip on collision) are judged on histories (sub_step); no theorem yet",
+     "'ErrMax iff full, without blocking' is judged on histories; the model function is total (no blocking) by construction"],
+    "C17 generator: AtLeastOnceMax/ExactlyOnceMax in {0,1,2,3,-1,16384,20000}, no Persistence faults.",
+    REFINE + "Corollaries: in-flight count per level <= configured maximum <= 16384; identifiers of the window pairwise distinct across the 14-bit wrap, non-zero, in the range of their kind, the two kinds disjoint. "
+    "c17_ok judges the trace: new identifier free, window within the limit, ErrMax exactly when full, subscribe/unsubscribe identifiers distinct among pending requests and in their range.",
+    "Trusted: Coq kernel; the Session model; harness.",
+    "Coq refinement + invariant proof (arithmetic mod 2^14) + model/implementation correspondence")
+
+ALLSTATES = "The theorems are about the executable session model (Session.v) for ALL client states and ALL environment scripts; the model is tied to the real client by recorded histories on every run. "
+
+hist_prop("C02",
+    ["c02_adopt_exact", "c02_adopt_some", "c02_repeat", "c02_any_stop_point", "c02_order_independent", "c02_pinned_full_window_refuted"],
+    ["side conditions known_keys and markers_genuine (only keys the client itself writes; markers are genuine records) are hypotheses of c02_adopt_exact, preserved by adoption (c02_repeat) but not yet proved preserved by every ostep",
+     "the sequence-continues clause excludes key 0 (client identifier); FileSystem as a store is the subject of C19; both stores (volatile map via simStore) are exercised on histories"],
+    "C02 generator: restart rate 6-12 % per step, so 1-5 stop/adopt cycles per history with publishes and acknowledgements in between; stop points are the API-call boundaries of the history.",
+    REFINE + "AdoptSession on the Persistence of any state satisfying the invariant is exact (c02_adopt_exact: a client, no warning, nothing deleted, same windows/identifiers/stages, storage sequence continued, invariant again) and composes for any number of cycles (c02_repeat); each abstract transition performs at most one Save/Delete, so stop points between Persistence operations are covered (c02_any_stop_point). The pinned counter reconstruction is refuted for a full PUBREL window (F22, repaired). c02_ok judges the trace (no warnings on an untampered store, delete/ack/order rules across restarts).",
+    "Trusted: Coq kernel; Session model; harness. Hypotheses known_keys/markers_genuine as stated in coverage.partial.",
+    "Coq proof (sorting by storage number, arithmetic mod 2^14) on top of refinement + invariant; model/implementation correspondence with restarts")
+
+hist_prop("C04",
+    ["c04_once_per_cycle", "c04_dupe_gets_pubrec", "c04_dupe_gets_pubrec_big", "c04_pubrel_gets_pubcomp", "c04_marker_before_pubrec"],
+    ["across restarts: the marker lives in the Persistence, so the once-per-cycle theorem applies to an adopted client on the same store; the documented BUG window (marker Save fails, then process stop) is excluded as the property says"],
+    "C04 generator: broker-initiated QoS 2 publishes with retransmissions (same content, DUP), PUBREL after PUBREC, loss of acknowledgements, big messages (buffer 32/64), restarts.",
+    ALLSTATES + "A PUBLISH whose marker is in the Persistence is never returned; a duplicate gets its PUBREC again at once; every PUBREL gets PUBCOMP (or it is kept for the retry); the marker is saved before the PUBREC is written. c04_ok judges the trace: no delivery while the marker exists, every passed PUBLISH/PUBREL answered.",
+    "Trusted: Coq kernel; Session model; harness.",
+    "Coq proof over all states/scripts of the model's reception handlers + model/implementation correspondence")
+
+hist_prop("C07",
+    ["c07_receive_writes_nothing", "c07_own_ack", "c07_no_ack_while_held", "c07_ack_first_on_next_call", "c07_pending_ack_shape"],
+    ["'none is returned without eventually being acknowledged' is liveness: the acknowledgement stays pending until written (c07_ack_first_on_next_call keeps it on failure); eventual delivery assumes the application keeps calling ReadSlices and a good suffix"],
+    "C07 generator: as C04 plus QoS 1, application pauses (other requests between ReadSlices calls), write failures of the acknowledgement itself.",
+    ALLSTATES + "Receiving a PUBLISH writes nothing and enqueues exactly its own acknowledgement; a ReadSlices call that returns a message wrote nothing since receiving it; the next call writes the acknowledgement first (after the marker Save for PUBREC) and keeps it on failure. c07_ok judges the trace: every PUBACK/PUBREC written belongs to a message returned by an earlier call (or answers a marked duplicate).",
+    "Trusted: Coq kernel; Session model; harness.",
+    "Coq proof over all states/scripts + model/implementation correspondence")
+
+hist_prop("C13",
+    ["c13_violation_resets", "c13_other_types", "c13_suback_count", "c13_error_resets", "c13_big_error_resets", "c13_remlen_resets", "c13_redial",
+     "c13_no_forged_progress", "c13_counters_in_order", "c13_records_in_order", "c13_release_in_order", "c13_errs_in_model"],
+    ["'never panics' for the Go code is observed (recovered panics are events, no_panic on every history), the model has no panic value",
+     "'never waits beyond PauseTimeout': reads_armed is judged on histories (every mid-packet read has a deadline); no theorem yet",
+     "allocation bound is observed (BigMessage.Size <= announced), not proved"],
+    "C13 generator: hostile broker (reserved/client-only types, second CONNACK, zero/foreign/unsolicited identifiers, QoS 3, five-byte length, illegal SUBACK codes, count mismatch, malformed CONNACK) mixed into valid traffic, against clients with 0..n transfers at each stage.",
+    ALLSTATES + "Every listed violation is a protocol-reset error; every handler error closes the connection, goes offline and the next ReadSlices redials; progress (counters, queue heads, record deletion) happens only through the in-order acknowledgement. c13_ok judges the trace: no panic, mid-packet reads armed, deletes only after the in-order ack was read, violating connections closed.",
+    "Trusted: Coq kernel; Session model; harness.",
+    "Coq case analysis over all packet types/states + model/implementation correspondence under a hostile scripted broker")
+
+PROPS["C14"] = dict(PROPS.get("C14", {}))
+hist_prop("C14",
+    ["c14_not_submitted_nothing_written", "c14_request_outcomes", "c14_publish_classes", "c14_subscribe_classes", "c14_ping_classes", "c14_disconnect_classes",
+     "c14_quit_classes", "c14_persisted_error_not_enqueued", "c14_persisted_accepted", "c14_completion_classes", "c14_canceled_only_by_quit",
+     "c14_deny_end_disjoint", "c14_step_deny_end_disjoint", "c14_is_any_iff", "c14_lib_deny_end_disjoint", "c14_backoff_nil_iff", "c14_read_backoff_nil_iff_closed"],
+    ["Backoff(errors.Join(ErrMax, SubscribeError)) returns the timer, not nil (ErrTreeTheorems.c14_backoff_mixed_counterexample); the library never builds such a value",
+     "ReadBackoff(ErrClosed) with a BigMessage pending returns the released channel; not reachable through the documented calling sequence"],
+    "C14 generator: general histories (all request kinds in all client states, quit timing, fault placement); second runner C14ERR: random error trees (depth <= 6, fan-out <= 4) from the real sentinel values through IsDeny/IsEnd/IsConnectionRefused/Backoff/ReadBackoff.",
+    ALLSTATES + "Per method the result classes are exactly the documented ones; a not-submitted class leaves the world untouched (no byte); a failed persisted publish is not enqueued; quit gives only ErrCanceled/ErrAbandoned; IsDeny/IsEnd disjoint on all model errors; the classifier nonNilIsAny finds a target iff it occurs in an arbitrarily wrapped/joined tree. c14_ok judges the trace per call.",
+    "Trusted: Coq kernel; Session model and ErrTree model (errors.Is/As from go1.26 errors/wrap.go); harness.",
+    "Coq case analysis over methods x states + nested induction on error trees + model/implementation correspondence")
+PROPS["C14"]["modules"] = ["HistChecks", "ErrTreeCheck"]
+PROPS["C14"]["runners"] = [{"name": "C14", "synctest": True}, {"name": "C14ERR", "synctest": False}]
+
+hist_prop("C16",
+    ["c16_adopt_total", "c16_single_byte_damage_is_undecodable", "c16_truncated_is_undecodable", "c16_purge_keeps_good_records", "c16_adopt_changes_store_only_by_purge", "c16_adopt_of_consistent_store"],
+    ["adopt_connectable (after adoption every record a resend loads exists and decodes) for a store damaged in up to k records is judged on histories (14 damage scenarios x restart x connect), not a theorem",
+     "records abandoned by an adoption (dropped PUBREL range, gaps) stay in the Persistence and are reported again by later adoptions until overwritten"],
+    "C16 generator: a session with transfers at every stage (3 at-least-once PUBLISH, PUBREL, 3 exactly-once PUBLISH, reception marker), then the Persistence is rewritten (byte flip, truncation, removal, stray entries, empty leftover; on PUBLISH, PUBREL, marker, client-identifier records; one or two records), then AdoptSession, connect, duplicates, new publishes, another restart; plus random histories.",
+    ALLSTATES + "For ANY Persistence content AdoptSession terminates, deletes and counts every undecodable record and keeps the rest (c16_adopt_total); altered or truncated records are always undecodable (C15). c16_ok judges the trace: adoption is fatal only for Persistence failures or a pending count above the limit; after adoption no ReadSlices fails with a class-less error (missing/corrupt own record). Known finding F15 (client identifier record damaged or removed: connect fails / empty identifier) is recorded, not repaired.",
+    "Trusted: Coq kernel; Session model; harness (store rewrites are applied to the model's map as well).",
+    "Coq proof of totality over arbitrary stores + model/implementation correspondence on damage scenarios")
+
+hist_prop("C18",
+    ["c18_connect_log_shape", "c18_handshake_rejects", "c18_accept_iff", "c18_refused", "c18_wrong_header", "c18_bad_flags", "c18_eof", "c18_reject_closes",
+     "c18_clean_session_once", "c18_no_more_clean", "c18_csem_monotone", "c18_failed_attempt_releases_waiters"],
+    ["'requests issued while a connect attempt is in progress wait for its outcome': in the sequential model they are parked and released with ErrDown by a failed attempt (c18_failed_attempt_releases_waiters); release after a successful attempt races with the read routine and is excluded from sequential histories (L3)"],
+    "C18 generator: dial failures, failures at any byte of CONNECT/CONNACK, return codes 1-5 and malformed CONNACKs, session-present x clean-session, failures during resend, repeated reconnects, requests issued offline.",
+    ALLSTATES + "Every connect attempt has the shape Load, Dial, CONNECT (only), CONNACK reads (only), then close or resends-in-order and Online; the verdict on the CONNACK is exactly as specified; CleanSession is requested iff configured and nothing was established before, never again afterwards. c18_ok judges each connection's bytes with the independent parser.",
+    "Trusted: Coq kernel; Session model; harness.",
+    "Coq proof of the connect trace shape over all states/scripts + model/implementation correspondence")
+
+PROPS["C09"] = {
+    "modules": ["C09Check", "C09CheckProofs"],
+    "theorems": ["c09_utf8_valid_iff", "c09_string_check_iff", "c09_topic_check_iff", "c09_deny_iff_invalid", "c09_no_valid_denied",
+                 "c09_config_valid_iff", "c09_init_valid_iff", "c09_emitted_well_formed", "c09_emitted_bytes", "c09_emit_connect", "c09_emit_acks",
+                 "c09_ping_disconnect_literal", "c09_identifiers_in_range", "c09_deny_no_trace", "c09_deny_world_untouched", "c09_deny_client_untouched",
+                 "c09_step_deny_only_if_invalid", "c09_init_denied_no_trace", "... (46 in props/C09.v)"],
+    "partial": ["bytes msg/password/will message and keep-alive < 65536 are typing hypotheses, not derived from validation",
+                "a 256 MiB SUBSCRIBE is covered by the theorem and by the denial side only"],
+    "rule": "stringCheck/topicCheck exhaustively on every 1- and 2-byte string, all 3- and 4-byte strings over 24 boundary bytes, boundary lengths 0,1,127,128,65535,65536, "
+            "code points around every boundary; emitted packets of all kinds with remaining lengths across every width boundary (125..129, 257, 16381..16385, 65793, 2097149..2097153, "
+            "16843009, 268435455/268435456), 540 CONNECT Config combinations, all acknowledgements; every invalid argument class x request kind with a following valid probe; "
+            "Config.valid and InitSession cases. Non-trivial = every case; distinct = distinct term.",
+    "assumptions": ["utf8.ValidString is modelled and compared on every string", "payloads above 8 KiB are compared by header, length and a Go-side tail comparison",
+                    "errors are projected to the index in the deny table plus IsDeny, never message text"],
+    "harness_timeout": 900,
+    "level_text": "Coq theorems: the UTF-8 validator accepts exactly the concatenations of RFC 3629 encodings of scalar values; a request is denied iff some argument is invalid (first failing check in the documented order), no valid argument is denied; every non-denied request's packet parses with the independent MQTT 3.1.1 parser to exactly the requested fields, for all lengths (remaining-length widths by arithmetic); a denied request leaves the world and the client untouched. Tied to the real code by exhaustive/boundary differential runs.",
+    "level_note": "Trusted: Coq kernel; models of utf8.ValidString and the packet composers (validated on every run); the independent parser Spec.v as the reading of the OASIS text; harness.",
+    "technique": "Coq proof (iff-characterisations, round-trip laws for all lengths) + exhaustive/boundary model/implementation correspondence",
+}
+
+PROPS["C06"] = {
+    "modules": ["C06Check"],
+    "theorems": ["c06_peek_packet_exact", "c06_remaining_length_exact", "c06_fifth_length_byte_refused",
+                 "c06_big_message_read_exact", "c06_alignment_unread_big", "c06_alignment_duplicate_big",
+                 "c06_discard_exact", "c06_read_all_exact", "c06_stream_exact", "c06_unfragmented_exact",
+                 "c06_fragmentation_invariant"],
+    "partial": ["theorems are at L1 (bufio + peekPacket/discard/ReadAll + read_stream iteration over (first byte, size, body bytes)); topic/message split, Persistence markers, acknowledgements and the CONNACK handshake are modelled in C06Check.run_client and in Session.v and tied by cases, not proved at this level",
+                "a run ending in a deadline-expiry error is only shown to have observed a prefix; that the code errs only at expiries without progress is checked on cases (c06_ok), not proved",
+                "no general soundness theorem for c06_ok (Example c06_checker_accepts_model only)"],
+    "rule": "per buffer size B in {16,32,64,256} (hook) random well-formed broker streams: CONNACK, PUBLISH QoS0/1/2 retain/dup, PUBACK/PUBREC/PUBCOMP/SUBACK/UNSUBACK/PINGRESP for requests the test placed, QoS2 duplicates and PUBREL; payloads 0,1,2,5,B-hdr-1..B-hdr+1,B-2..B+2,2B,3B+1; topics 1..min(B-4,24). "
+            "Cuts: whole, per packet, 1-byte reads (+expiry at every cut), every single cut position (with and without expiry), random multi-cuts with and without progress-making expiries, expiries without progress (error expected), stall during the skip of a duplicate big message; histories at the default 128 KiB; bufio.Reader call scripts against the model of bufio. Non-trivial = more than 2 conn.Read calls.",
+    "assumptions": ["bufio.Reader is modelled (fill/Peek/Discard/ReadByte/Read, latched error) and compared with go1.26.8 bufio on every run (BufioCase)",
+                    "an expiry 'without progress' = Timeout answer to a conn.Read before which the deadline was re-armed since the previous conn.Read",
+                    "a big PUBLISH needs topic+identifier within one buffer-load (documented in client.go); the generator keeps topics <= B-4 for reduced sizes",
+                    "the CONNACK has one deadline for all four bytes (C18's scope): no expiries are injected inside it"],
+    "harness_timeout": 900,
+    "level_text": "Coq theorems for ALL buffer sizes >= 16, ALL streams and ALL chunkings (tapes of non-empty data segments and deadline expiries): peekPacket returns exactly the framed packet (or a timeout error), 1-4 byte remaining lengths decode exactly and a fifth byte is refused, the big-message path returns exactly the payload, discard/ReadAll leave the stream aligned, and two tapes with the same data give the same observations (fragmentation invariance; without expiries the run always completes). The model of bufio + read loops is tied to the real code by differential runs over every cut position, 1-byte reads, expiries and buffer sizes.",
+    "level_note": "Trusted: Coq kernel; the bufio model (validated against go1.26.8 on every run); harness. Partial as listed: the split of a PUBLISH body into topic/identifier/message and the session effects are covered by the session model's correspondence, not by these L1 theorems.",
+    "technique": "Coq proof by induction over the chunk tape (bufio refinement to the pending-bytes abstraction) + model/implementation correspondence over all cut positions",
+}
